@@ -13,11 +13,20 @@
         "na": the model answers None (the entry is a directory / owns clusters: the library touches more than the root
         region); the current image is then STALE until the next "img"/"fmt" and every answer is prefixed "stale "
    "root"                                   Spec/Abs.abs of the current image: "<nodes> <issues> <free clusters>: <lfn u16 hex|->,<sfn hex>,<size>,<cluster>;..."
-   "page <off>"                             hex of that page of the current image *)
+   "page <off>"                             hex of that page of the current image
+   chain-backed sub-directory of the root, without growth (Model/VolChainDir.v):
+   "cdir <sfn hex, 11 bytes>"               selects the directory: the root node with that raw short name (Spec/Abs.abs of the
+        current image) -> "ok <c1,c2,..>" (its chain) | "none"
+   "ccreate <name> <y> <m> <d> <h> <mi> <s> <ms>" / "cremove <name>" / "crename <src> <dst>"   vol_*_chain on the selected chain
+        -> as create / remove / rename; "na" also when the directory would have to grow
+   "poke <off> <hex>"                       current := current with these bytes written (the parent-entry stamp the chain model
+        leaves out) -> "ok <digest>"
+   "sub"                                    Abs.dir_scan of the selected directory: "<entries> <issues>: <lfn u16 hex|->,<sfn hex>;..." *)
 open Conv
 
 let cur : Image.image ref = ref (Image.img_empty BinNums.N0)
 let stale = ref false
+let chain : BinNums.coq_N list ref = ref []
 
 let upper c = M_c15.upper_table c
 let oem = Name.oem_decode_lossy
@@ -83,6 +92,40 @@ let line (t : string list) : string =
           (string_of_n e.Abs.e_cluster)) v.Abs.v_root in
     pre (Printf.sprintf "%d %d %s: %s" (Stdlib.List.length v.Abs.v_root) (Stdlib.List.length v.Abs.v_root_issues)
            (string_of_n (Abs.count_free g !cur)) (String.concat ";" ents))
+  | ["cdir"; sfn] ->
+    let want = bytes_of_hex sfn in
+    let v = Abs.abs !cur in
+    let rec find l = match l with
+      | Abs.NDir (e, Some ch, _, _, _) :: r -> if e.Abs.e_sfn = want then Some ch else find r
+      | _ :: r -> find r
+      | [] -> None in
+    (match find v.Abs.v_root with
+     | Some ch -> chain := ch; "ok " ^ String.concat "," (Stdlib.List.map string_of_n ch)
+     | None -> chain := []; "none")
+  | ["ccreate"; name; y; m; d; h; mi; s; ms] ->
+    (match VolChainDir.vol_create_empty_file_chain upper oem !cur !chain (name_of_hex name) (M_c18.mkdt y m d h mi s ms) with
+     | None -> stale := true; "na"
+     | Some (r, im) ->
+       cur := im;
+       pre (res_tag (fun o -> match o with
+                              | None -> "exists"
+                              | Some (p, q) -> Printf.sprintf "ok %s %s" (string_of_n p) (string_of_n q)) r ^ " " ^ digest ()))
+  | ["cremove"; name] ->
+    (match VolChainDir.vol_remove_empty_file_chain upper oem !cur !chain (name_of_hex name) with
+     | None -> stale := true; "na"
+     | Some (r, im) -> cur := im; pre (res_tag (fun _ -> "ok") r ^ " " ^ digest ()))
+  | ["crename"; src; dst] ->
+    (match VolChainDir.vol_rename_in_chain upper oem !cur !chain (name_of_hex src) (name_of_hex dst) with
+     | None -> stale := true; "na"
+     | Some (r, im) -> cur := im; pre (res_tag (fun _ -> "ok") r ^ " " ^ digest ()))
+  | ["poke"; off; hx] ->
+    cur := Image.img_write !cur (n_of_string off) (bytes_of_hex hx);
+    pre ("ok " ^ digest ())
+  | ["sub"] ->
+    let g = Abs.parse_geom !cur in
+    let ((es, _), iss) = Abs.dir_scan (VolChainDir.chain_dir_slots g !cur !chain) BinNums.N0 [] false in
+    pre (Printf.sprintf "%d %d: %s" (Stdlib.List.length es) (Stdlib.List.length iss)
+           (String.concat ";" (Stdlib.List.map (fun e -> hex16_of_words e.Abs.e_lfn ^ "," ^ hex_of_bytes e.Abs.e_sfn) es)))
   | ["page"; pg] ->
     let off = int_of_string pg in
     let fill = int_of_n (!cur).Image.img_fill in
